@@ -17,11 +17,12 @@ import (
 )
 
 type RListen struct {
-	Addr       string
-	UDP, TCP   int
-	Backends   []string // udp://ip:port | tcp://ip:port
-	NoReceived string   // "" absent | "true" | "false"
-	MustRR     bool
+	Addr             string
+	UDP, TCP         int
+	Backends         []string // udp://ip:port | tcp://ip:port
+	NoReceived       string   // "" absent | "true" | "false"
+	MustRR           bool
+	BackendLocalPort int // backend-local-port (0 = omitted)
 }
 
 type RRoute struct {
@@ -71,6 +72,9 @@ func (c RCfg) proxyYAML(b *strings.Builder) {
 		}
 		if l.NoReceived != "" {
 			fmt.Fprintf(b, "    no-received: %s\n", l.NoReceived)
+		}
+		if l.BackendLocalPort != 0 {
+			fmt.Fprintf(b, "    backend-local-port: %d\n", l.BackendLocalPort)
 		}
 		if l.MustRR {
 			b.WriteString("    must-record-route: true\n")
